@@ -51,6 +51,13 @@ def rotate(pts_deg, R):
 def make(ctx, name, pts, w, z, centers):
     cols = {"ra": [p[0] for p in pts], "dec": [p[1] for p in pts], "w": w}
     kw = dict(ra_name="ra", dec_name="dec", weight_name="w", patch_centers=centers, max_workers=1)
+    # how the table is cut into chunks on ingest is one more arbitrary convention: every creation draws its own
+    # chunk size (None = one chunk; otherwise mostly not a divisor of the row count)
+    n = len(pts)
+    cs = ctx.rng.choice([None, None, max(1, n // 2 + 1), max(1, n // 3 + 1), max(2, n - 1), n, n + 3, 5, 7])
+    if cs is not None:
+        kw["chunksize"] = cs
+    ctx.bump("ingest_chunks:%s" % ("one" if cs is None or cs >= n else "many-exact" if n % cs == 0 else "many-ragged"))
     if z is not None:
         cols["z"] = z; kw["redshift_name"] = "z"
     return impl.Catalog.from_dataframe(impl.fresh_dir(ctx, name), impl.make_df(cols), **kw)
